@@ -41,10 +41,10 @@ BASE = {
          "ports": {"external_port": {"ip_address": "10.0.1.2", "subnet_mask": "255.255.255.0"},
                    "internal_port": {"ip_address": "10.0.3.1", "subnet_mask": "255.255.255.0"},
                    "dmz_port": {"ip_address": "10.0.4.1", "subnet_mask": "255.255.255.0"}},
-         "acl": {"internal_inbound_acl": {2: {"action": "DENY", "protocol": "UDP"}, 7: {"action": "PERMIT", "src_ip": "10.0.0.2", "src_wildcard_mask": "0.0.0.0"}},
+         "acl": {"internal_inbound_acl": {2: {"action": "DENY", "protocol": "UDP"}, 7: {"action": "PERMIT", "src_ip": "10.0.0.0", "src_wildcard_mask": "0.0.0.255"}},
                  "internal_outbound_acl": {}, "dmz_inbound_acl": {},  # (the loader requires the four internal/dmz lists to be present)
                  "dmz_outbound_acl": {4: {"action": "PERMIT", "dst_port": "DNS", "protocol": "UDP"}},
-                 "external_inbound_acl": {1: {"action": "DENY", "dst_ip": "10.0.3.9", "dst_wildcard_mask": "0.0.0.0"}}},
+                 "external_inbound_acl": {1: {"action": "DENY", "dst_ip": "10.0.3.0", "dst_wildcard_mask": "0.0.0.63"}}},
          "routes": [{"address": "10.0.0.0", "subnet_mask": "255.255.255.0", "next_hop_ip_address": "10.0.1.1", "metric": 2},
                     {"address": "10.0.0.0", "subnet_mask": "255.255.255.0", "next_hop_ip_address": "10.0.1.7", "metric": 5}],
          "default_route": {"next_hop_ip_address": "10.0.1.1"}},
@@ -142,14 +142,14 @@ def expected(cfg):
         if n["type"] == "router":
             e["interfaces"] = {int(k): (v["ip_address"], v.get("subnet_mask", "255.255.255.0")) for k, v in n.get("ports", {}).items()}
             e["acl"] = {int(k): (r["action"], r.get("src_ip"), r.get("dst_ip"), PORTS.get(r.get("src_port")), PORTS.get(r.get("dst_port")),
-                                 (r.get("protocol") or "").lower() or None) for k, r in n.get("acl", {}).items()}
+                                 (r.get("protocol") or "").lower() or None, r.get("src_wildcard_mask"), r.get("dst_wildcard_mask")) for k, r in n.get("acl", {}).items()}
             e["routes"] = sorted((r["address"], r.get("subnet_mask", "255.255.255.0"), r["next_hop_ip_address"], float(r.get("metric", 0))) for r in n.get("routes", []))
             e["default_route"] = (n.get("default_route") or {}).get("next_hop_ip_address")
         if n["type"] == "firewall":
             order = {"external_port": 1, "internal_port": 2, "dmz_port": 3}
             e["interfaces"] = {order[k]: (v["ip_address"], v.get("subnet_mask", "255.255.255.0")) for k, v in n.get("ports", {}).items()}
             e["acls"] = {nm: {int(k): (r["action"], r.get("src_ip"), r.get("dst_ip"), PORTS.get(r.get("src_port")), PORTS.get(r.get("dst_port")),
-                                       (r.get("protocol") or "").lower() or None) for k, r in rules.items()} for nm, rules in n.get("acl", {}).items()}
+                                       (r.get("protocol") or "").lower() or None, r.get("src_wildcard_mask"), r.get("dst_wildcard_mask")) for k, r in rules.items()} for nm, rules in n.get("acl", {}).items()}
             e["routes"] = sorted((r["address"], r.get("subnet_mask", "255.255.255.0"), r["next_hop_ip_address"], float(r.get("metric", 0))) for r in n.get("routes", []))
             e["default_route"] = (n.get("default_route") or {}).get("next_hop_ip_address")
         inv[n["hostname"]] = e
@@ -193,7 +193,8 @@ def built(game, cfg):
         if want["type"] == "router":
             e["interfaces"] = {k: (str(v.ip_address), str(v.subnet_mask)) for k, v in nd.network_interface.items() if k in want["interfaces"]}
             e["acl"] = {i: (r.action.name, None if r.src_ip_address is None else str(r.src_ip_address), None if r.dst_ip_address is None else str(r.dst_ip_address),
-                            r.src_port, r.dst_port, r.protocol) for i, r in enumerate(nd.acl._acl) if r is not None and i in want["acl"]}
+                            r.src_port, r.dst_port, r.protocol, None if r.src_wildcard_mask is None else str(r.src_wildcard_mask),
+                            None if r.dst_wildcard_mask is None else str(r.dst_wildcard_mask)) for i, r in enumerate(nd.acl._acl) if r is not None and i in want["acl"]}
             e["acl_extra_positions"] = sorted(i for i, r in enumerate(nd.acl._acl) if r is not None and i not in want["acl"] and i < 21)
             e["routes"] = sorted((str(r.address), str(r.subnet_mask), str(r.next_hop_ip_address), float(r.metric)) for r in nd.route_table.routes)
             dr = nd.route_table.default_route
@@ -204,7 +205,8 @@ def built(game, cfg):
             for nm, rules in want["acls"].items():
                 acl = getattr(nd, nm)
                 e["acls"][nm] = {i: (r.action.name, None if r.src_ip_address is None else str(r.src_ip_address), None if r.dst_ip_address is None else str(r.dst_ip_address),
-                                     r.src_port, r.dst_port, r.protocol) for i, r in enumerate(acl._acl) if r is not None and i in rules}
+                                     r.src_port, r.dst_port, r.protocol, None if r.src_wildcard_mask is None else str(r.src_wildcard_mask),
+                                     None if r.dst_wildcard_mask is None else str(r.dst_wildcard_mask)) for i, r in enumerate(acl._acl) if r is not None and i in rules}
                 extra = sorted(i for i, r in enumerate(acl._acl) if r is not None and i not in rules and i < 21)
                 if extra:
                     e["acls"][nm]["$undeclared"] = extra
